@@ -328,7 +328,7 @@ class MyPyAstVisitor:
             if result_doc_type is not None:
                 if result_type is None:
                     # Add missing returns
-                    result_name = result_doc.name if result_doc.name else f"result_{i}"
+                    result_name = result_doc.name if result_doc.name else f"result_{i + 1}"
                     new_result = Result(type=result_doc_type, name=result_name, id=f"{function_id}/{result_name}")
                     results_code.append(new_result)
 
